@@ -2,6 +2,7 @@ package rules
 
 import (
 	"fmt"
+	"regexp"
 	"sort"
 	"strings"
 
@@ -177,6 +178,83 @@ func O4(rc *RC, a *oAnalysis, floor int) {
 				continue
 			}
 			rc.S.Viol("O4", key, a.p.Pos(fn.Pos()), fmt.Sprintf("%s puts its parameter %s into the pool (%s): the slice belongs to the caller", oFnKey(fn), p.Name(), why)).Sig = "recycles " + p.Name()
+		}
+	}
+}
+
+// O9: at most one release per object and path. returnOpOpt, ReturnInts, ReturnBools and
+// returnHeader put their argument into a free list; releasing the same object twice on one
+// path (a deferred release plus an explicit one on an early exit is the usual shape) hands it
+// to two later borrowers at once. Per function and canonical path, explicit and deferred
+// releases of the same variable are counted; an assignment to the variable in between starts
+// a new object.
+var o9Release = regexp.MustCompile(`^(?:defer )?(returnOpOpt|ReturnInts|ReturnBools|returnHeader|ReturnTensor)\((.*)\)$`)
+
+func O9(rc *RC, floor int) {
+	rc.S.Declare("O9", "single release: on every path of every function an object is handed to returnOpOpt / ReturnInts / ReturnBools / returnHeader / ReturnTensor at most once (explicit and deferred releases counted together)", floor)
+	for _, fi := range rc.P.SortedFuncs() {
+		if fi.Pkg != rc.P.Root || fi.Decl.Body == nil || strings.HasSuffix(fi.File, "_test.go") || strings.HasPrefix(fi.File, "sparse") || lcGenerated[fi.File] {
+			continue // generated engine methods: rule M7 interprets their mode cases
+		}
+		_, tree := sCanon(rc, fi)
+		txt := ir.Render(tree)
+		if !strings.Contains(txt, "returnOpOpt(") && !strings.Contains(txt, "ReturnInts(") && !strings.Contains(txt, "ReturnBools(") && !strings.Contains(txt, "returnHeader(") && !strings.Contains(txt, "ReturnTensor(") {
+			continue
+		}
+		pos := rc.P.Pos(fi.Decl.Pos())
+		paths, ok := ir.EnumPaths(tree, 20000)
+		if !ok {
+			rc.S.Undec("O9", fi.Key, pos, "too many paths")
+			continue
+		}
+		var bad []string
+		sites := map[string]bool{}
+		for _, p := range paths {
+			count := map[string]int{}
+			first := map[string]string{}
+			var lin []*ir.Node
+			for _, st := range p.Steps {
+				lin = append(lin, st)
+			}
+			for _, st := range lin {
+				switch st.Kind {
+				case "let", "store":
+					delete(count, st.Target)
+				case "tuple":
+					for _, t := range st.Targets {
+						delete(count, t)
+					}
+				}
+				if st.Kind == "loop" || st.Kind == "range" || st.Kind == "switch" {
+					continue // releases inside loops concern per-iteration objects
+				}
+				m := o9Release.FindStringSubmatch(st.Head)
+				if m == nil {
+					continue
+				}
+				arg := m[1] + "(" + m[2] + ")"
+				sites[arg] = true
+				v := m[2]
+				for strings.HasPrefix(v, "[]int(") && strings.HasSuffix(v, ")") {
+					v = v[len("[]int(") : len(v)-1]
+				}
+				k := m[1] + "|" + v
+				count[k]++
+				if count[k] == 1 {
+					first[k] = rc.P.Pos(st.Pos)
+				} else {
+					bad = append(bad, fmt.Sprintf("%s is released by %s at %s and again at %s on the path [%s]", v, m[1], first[k], rc.P.Pos(st.Pos), strings.Join(p.Guards, " && ")))
+				}
+			}
+		}
+		if len(sites) == 0 {
+			continue
+		}
+		if len(bad) > 0 {
+			b := uniq(bad)
+			rc.S.Viol("O9", fi.Key, pos, strings.Join(b, "; ")).Sig = fmt.Sprintf("%d double release(s)", len(b))
+		} else {
+			rc.S.Ok("O9", fi.Key, pos, fmt.Sprintf("%d release site(s), each object released at most once per path", len(sites)))
 		}
 	}
 }
